@@ -53,6 +53,7 @@ with open(os.path.join(V, 'seeded', 'README.md'), 'w') as f:
         'C18-28': 'exit 2: functor call on the key-equality object of the index (m_keyed_elements.key_eq()(a, b)) in a duplicate-key shortcut of find_range (twin pair DB2)',
         'C16-32': 'exit 2: ttl re-file skipped for an unchanged deadline depending on the neighbouring key, tie order among equal deadlines (twin pair DC2)',
         'C17-29': 'exit 2: ttl nodes parked in a local std::list and spliced back (adoption from a local list is an unmodelled construct; twin pair DD2)',
+        'C16-33': 'exit 2: ttl re-file skipped through a helper for an unchanged deadline depending on the neighbouring key, tie order among equal deadlines (twin pair EC1, as C16-32)',
         'C11-22': 'exit 2: hinted multimap re-insertion with lower_bound as the hint (tie order among equal counts; twin pair SC1)',
         'C14-26': 'NOT DECIDED: as C14-20, float versus double product (twin pair SC2)',
         'C08-23': 'NOT DECIDED (exit 0): a hand-written move constructor leaves the partition iterator dangling - constructors and special members are outside the per-operation analysis (twin pair TF1, DESIGN 13.4p)',
